@@ -440,7 +440,11 @@ func convertStream(w *World, seed uint64, n int, out io.Writer) int {
 			if op == 8 {
 				target += "U" // one applicant spells its operator address in upper case (valid bech32): it must come back as written
 			}
-			txs = append(txs, Tx{Signer: op, Msgs: []Msg{{Kind: "CREATE", Args: []string{target, itoa(op), "4", "1", "2", "3", "4", "200000000000000000", "500000000000000000", "100000000000000000", "1"}}}})
+			lens := []string{"4", "1", "2", "3", "4"}
+			if op == 3 {
+				lens = []string{"70", "3000", "140", "140", "280"} // every description field at exactly x/staking's maximum
+			}
+			txs = append(txs, Tx{Signer: op, Msgs: []Msg{{Kind: "CREATE", Args: append(append([]string{target, itoa(op)}, lens...), "200000000000000000", "500000000000000000", "100000000000000000", "1")}}})
 		}
 		o := node.ExecBlock(Block{DtNs: 1_000_000_000, Txs: txs}, nil)
 		for i, t := range o.Txs {
